@@ -5,35 +5,40 @@
 (* predicates are invariants of the operational model (Output.tla) and are  *)
 (* evaluated on the runs recorded from the real chain (Trace_Output.tla).   *)
 (*                                                                         *)
-(* A file is [a |-> TRUE, t |-> 0, d |-> 0] (absent) or                     *)
-(* [a |-> FALSE, t |-> template version, d |-> data version] (content):     *)
-(*   csv  d = version of the data it was converted from (t = 0)             *)
-(*   tex  t = version of the template it was rendered from (d = 0)          *)
-(*   pdf  t, d = versions of the tex and the csv read by the converter      *)
-(*   png  t, d = those of the pdf it was converted from                     *)
+(* A plot has one or several sources (several: a group made by GroupBy /    *)
+(* group_plots / MapGroup, rendered into ONE tex, pdf and png).             *)
+(* A file is [a |-> TRUE, t |-> 0, d |-> <<>>] (absent) or                  *)
+(* [a |-> FALSE, t |-> template version, d |-> data versions] (content):    *)
+(*   csv[m] d = <<version of the data of source m>> (t = 0)                 *)
+(*   tex    t = version of the template it was rendered from (d = <<>>)     *)
+(*   pdf    t, d = versions of the tex and of every csv read by the         *)
+(*          converter                                                       *)
+(*   png    t, d = those of the pdf it was converted from                   *)
 (* A version -1 stands for any content that was never produced.             *)
 (***************************************************************************)
 EXTENDS Integers, Sequences, FiniteSets, TLC
 
-Absent == [a |-> TRUE, t |-> 0, d |-> 0]
+Absent == [a |-> TRUE, t |-> 0, d |-> <<>>]
 C(t, d) == [a |-> FALSE, t |-> t, d |-> d]
-Kinds == <<"csv", "tex", "pdf", "png">>
 
-\* the files of one plot that the current data (version dv) and template (version tv) produce
-Current(tv, dv) == [csv |-> C(0, dv), tex |-> C(tv, 0), pdf |-> C(tv, dv), png |-> C(tv, dv)]
+\* the files of one plot that the current data (versions dvs, one per source) and template (tv) produce
+Current(tv, dvs) == [csv |-> [m \in 1..Len(dvs) |-> C(0, <<dvs[m]>>)], tex |-> C(tv, <<>>),
+                     pdf |-> C(tv, dvs), png |-> C(tv, dvs)]
 
+\* w = [csv: which sources were written in this run, tex], l = [pdf, png: which converters ran],
+\* pre = the files before the run
+AnyCsv(w) == \E m \in 1..Len(w.csv) : w.csv[m]
 \* every derived artefact has been regenerated if anything it was rendered from was rewritten
-\* or if it was missing.  w: which of csv / tex were written in this run, l: which converters ran,
-\* pre: the files before the run
-RegeneratedPdf(pre, w, l) == (w.csv \/ w.tex \/ pre.pdf.a) => l.pdf
+\* or if it was missing
+RegeneratedPdf(pre, w, l) == (AnyCsv(w) \/ w.tex \/ pre.pdf.a) => l.pdf
 RegeneratedPng(pre, l) == (l.pdf \/ pre.png.a) => l.png
 
 \* output.changed of the yielded value: true whenever a file's content changed, and it stays true
 \* downstream (so every later artefact is redone)
-ChangedFlag(ch, w, l) == (w.csv \/ w.tex \/ l.pdf \/ l.png) => ch = "T"
+ChangedFlag(ch, w, l) == (AnyCsv(w) \/ w.tex \/ l.pdf \/ l.png) => ch = "T"
 \* (model only - the statement does not ask for it) a value for which nothing was done is not "changed"
 ChangedExact(ch, w, l) == ch = "T" => l.png
 
 \* a run whose inputs are unchanged rewrites no file and launches no converter
-Nothing(w, l) == ~w.csv /\ ~w.tex /\ ~l.pdf /\ ~l.png
+Nothing(w, l) == ~AnyCsv(w) /\ ~w.tex /\ ~l.pdf /\ ~l.png
 =============================================================================
